@@ -1413,3 +1413,4 @@ case("c03-refactor-skip-branch-first", "C03", "refactor", [(H + "start_stage/han
                     logger.warning(""")])
 case("c01-queue-push-inherits-message-id", "C01", "mutant", [("src/stabilize/queue/sqlite/queue.py", "        message_id = str(uuid.uuid4())", "        message_id = message.message_id or str(uuid.uuid4())")], "C01.R5")
 case("c01-refactor-row-id-helper", "C01", "refactor", [("src/stabilize/queue/sqlite/queue.py", "        message_id = str(uuid.uuid4())", "        row_identity = uuid.uuid4()\n        message_id = str(row_identity)")])
+case("c06-jump-without-source-guard", "C06", "mutant", [(H + "jump_to_stage/handler.py", "            if source_stage.status != WorkflowStatus.RUNNING:", "            if source_stage.status.is_complete and False:")], "C06.R2")
